@@ -341,3 +341,42 @@ VARIANTS += [
     F("C20", "lazy-restore-unchecked", SRV, "        instance = self._external_state_adapter.load_instance(instance_uuid)\n        if instance == None:\n            return False\n", "        instance = self._external_state_adapter.load_instance(instance_uuid)\n", "NULL/_ensure_instance_exists"),
     S("C20", "filter-as-comprehension", ADP, "        for instance_uuid in instance_paths:\n            instance = self._load_instance(instance_uuid.split(\".\")[0])\n            # a file that cannot be read (e.g. truncated by a crash) costs that one instance only\n            if instance is not None:\n                instances.append(instance)\n", "        loaded = [self._load_instance(p.split(\".\")[0]) for p in instance_paths]\n        instances = [i for i in loaded if i is not None]\n"),
 ]
+
+# ---------------------------------------------------------------------------- C03
+PYG = "BPTK_Py/sdcompiler/generator/py/py.py"
+GRM = "BPTK_Py/sdcompiler/parsers/smile/grammar.py"
+STX = "BPTK_Py/sdcompiler/plugins/stockExpressions.py"
+XML = "BPTK_Py/sdcompiler/parsers/xmile/xmile.py"
+JIN = "BPTK_Py/sdcompiler/generator/py/jinja_template.py"
+VARIANTS += [
+    F("C03", "caret-stays-caret", PYG, '"^": lambda lhs, rhs: "{} ** {}"', '"^": lambda lhs, rhs: "{} ^ {}"', "FLAT/^"),
+    F("C03", "mod-becomes-floordiv", PYG, '"mod": lambda lhs, rhs: "{} % {}"', '"mod": lambda lhs, rhs: "{} // {}"', "FLAT/mod"),
+    F("C03", "minus-operands-swapped", PYG, '"-": lambda lhs, rhs: "{} - {}".format(parseExpression(lhs), parseExpression(rhs))', '"-": lambda lhs, rhs: "{} - {}".format(parseExpression(rhs), parseExpression(lhs))', "FLAT/-"),
+    F("C03", "one-operator-parenthesises-right", PYG, '"*": lambda lhs, rhs: "{} * {}"', '"*": lambda lhs, rhs: "{} * ({})"', "FLAT/*"),
+    F("C03", "paren-node-drops-parentheses", PYG, '"()": lambda body: "( {} )"', '"()": lambda body: " {} "', "FLAT/()"),
+    # harmless: a conditional expression has the lowest precedence, so its bare branches keep any flat infix argument whole
+    S("C03", "if-then-bare-is-harmless", PYG, "return '( (' + str(then) + ') if (' + str(condition) + ') else (' + str(otherwise) + ') )'", "return '( ' + str(then) + ' if (' + str(condition) + ') else (' + str(otherwise) + ') )'"),
+    F("C03", "if-loses-outer-parens", PYG, "return '( (' + str(then) + ') if (' + str(condition) + ') else (' + str(otherwise) + ') )'", "return '(' + str(then) + ') if (' + str(condition) + ') else (' + str(otherwise) + ')'", "R1/builtins.if/not-self-delimiting"),
+    F("C03", "stock-sum-without-paren-node", STX, "                        {\"name\": '-', \"type\": 'operator', \"args\": [\n                            inflows,\n                            {\"name\": '()', \"type\": 'operator', \"args\": [outflows]}\n                        ]}", "                        {\"name\": '-', \"type\": 'operator', \"args\": [\n                            inflows,\n                            outflows\n                        ]}", "IRLIT/StockExpressions"),
+    F("C03", "unknown-operator-returns-zero", PYG, "        except KeyError:\n            raise Exception('Unknown Operator: {}'.format(expression))", "        except KeyError:\n            return \"0\"", "LOUD/parseExpression/operator-branch"),
+    F("C03", "sqrt-bare-again", PYG, '"(({}) ** 0.5 )".format(', '"({} ** 0.5 )".format(', "R1/builtins.sqrt"),
+    F("C03", "grammar-gains-unmapped-operator", GRM, "MultiplicativeOperator  = _ ( Asterisk / '/' / '^' / ~\"MOD\"i ) _", "MultiplicativeOperator  = _ ( Asterisk / '/' / '^' / '%' / ~\"MOD\"i ) _", "VOCAB/missing/%"),
+    F("C03", "identifier-not-sanitised", GRM, "    def visit_SimpleIdentifier(self, node, visited_children):\n        return {\"name\":sanitizeName(node.text.lower()), \"type\": 'identifier'}", "    def visit_SimpleIdentifier(self, node, visited_children):\n        return {\"name\":node.text.lower(), \"type\": 'identifier'}", "NAMES/visit_SimpleIdentifier"),
+    F("C03", "step-inverted", PYG, 'return "(0 if t < (" + str(time) + ") else " + str(height) + ")"', 'return "(0 if t > (" + str(time) + ") else " + str(height) + ")"', "R3/builtins.step"),
+    F("C03", "ln-is-log10", PYG, '\'ln\': lambda *args: "(np.log({}))"', '\'ln\': lambda *args: "(np.log10({}))"', "R3/builtins.ln"),
+    S("C03", "table-reordered", PYG, '    "+": lambda lhs, rhs: "{} + {}".format(parseExpression(lhs), parseExpression(rhs)),\n    "-": lambda lhs, rhs: "{} - {}".format(parseExpression(lhs), parseExpression(rhs)),', '    "-": lambda lhs, rhs: "{} - {}".format(parseExpression(lhs), parseExpression(rhs)),\n    "+": lambda lhs, rhs: "{} + {}".format(parseExpression(lhs), parseExpression(rhs)),'),
+    S("C03", "paren-node-by-concatenation", PYG, '"()": lambda body: "( {} )".format(parseExpression(body)),', '"()": lambda body: "( " + str(parseExpression(body)) + " )",'),
+]
+
+# ---------------------------------------------------------------------------- C04
+VARIANTS += [
+    F("C04", "previous-dropped-around-flows", STX, "                            {\"name\": 'PREVIOUS', \"type\": 'call', \"args\": [sum]}", "                            sum", "EULER/StockExpressions/literal"),
+    F("C04", "initial-test-strict", STX, "{\"name\": '<=', \"type\": 'operator', \"args\": [\n                        {\"name\": 'TIME'", "{\"name\": '<', \"type\": 'operator', \"args\": [\n                        {\"name\": 'TIME'", "EULER/StockExpressions/literal"),
+    F("C04", "previous-replacement-keeps-t", PYG, 'body = re.sub(pattern_t, ",t-self.dt)", body)', 'body = re.sub(pattern_t, ",t)", body)', "PREV/previous"),
+    F("C04", "non-negative-wrap-removed", XML, "                        elem[\"equation_parsed\"] = {\"name\": 'max', \"type\": 'call',\n                                                   \"args\": [0, deepcopy(elem[\"equation_parsed\"])]}", "                        pass", "NONNEG/parse_xmile/wrap"),
+    F("C04", "lerp-high-clamp-first-y", JIN, "    if x >= x_vals[len(x_vals)-1]:\n        return y_vals[len(x_vals)-1]\n\n    f = interp1d(x_vals, y_vals)\n    return float(f(x))\n\nclass simulation_model", "    if x >= x_vals[len(x_vals)-1]:\n        return y_vals[0]\n\n    f = interp1d(x_vals, y_vals)\n    return float(f(x))\n\nclass simulation_model", "SIBLING/LERP/high-clamp"),
+    F("C04", "generated-memo-raw-keys", JIN, "        if isinstance(arg, float):\n            arg = round(arg, 10)\n", "", "TIME/jinja:simulation_model.memoize"),
+    F("C04", "outflows-added", STX, "                        {\"name\": '-', \"type\": 'operator', \"args\": [\n                            inflows,", "                        {\"name\": '+', \"type\": 'operator', \"args\": [\n                            inflows,", "EULER/StockExpressions/net-both"),
+    F("C04", "dt-from-stop", JIN, "        self.dt = {{specs.dt}}", "        self.dt = {{specs.stop}}", "TIME/jinja:__init__/dt"),
+    S("C04", "literal-key-order", STX, "                expression = {\"name\": 'IF', \"type\": 'call', \"args\": [", "                expression = {\"type\": 'call', \"name\": 'IF', \"args\": ["),
+]
